@@ -595,7 +595,35 @@ theorem reshapeId_sound (L : Laws I WT) (ann : Ann) (a sT : Term) (x z : Tensor 
           | sym sy => simp only [hd, dimOK] at a1 a2; omega
           | unk => simp [hd, Dim.isUnk] at hnu
       exact ⟨by rw [hsame]; exact hx, hsa⟩
-    · exact dflt
+    · split
+      · rename_i hoo
+        obtain ⟨hlen, k, hk, hothers⟩ := oneOff_spec so sa hoo
+        obtain ⟨r1, d1⟩ := hann.2 so hso
+        obtain ⟨r2, d2⟩ := shapeOf_sound I ρ a hsa sa hsa' x hx
+        have hrank : (I.reshape x z).rank = x.rank := by rw [r1, r2, hlen]
+        have hoth : ∀ j, j < x.rank → j ≠ k →
+            (I.reshape x z).dim j = x.dim j ∧ 0 < (I.reshape x z).dim j := by
+          intro j hj hne
+          have h1 : j < so.length := by omega
+          have h2 : j < sa.length := by omega
+          obtain ⟨m, hm, e1, e2⟩ := hothers j h1 h2 hne
+          have a1 := d1 j h1
+          have a2 := d2 j h2
+          simp only [e1, dimOK] at a1
+          simp only [e2, dimOK] at a2
+          omega
+        have hnum := L.reshape_numel x z
+        simp only [numel, hrank] at hnum
+        have hkd : (I.reshape x z).dim k = x.dim k :=
+          prodTo_cancel _ _ k x.rank (by omega) hoth hnum
+        have hsame : I.reshape x z = x := by
+          apply L.reshape_same _ _ hrank
+          intro j hj
+          by_cases hjk : j = k
+          · rw [hjk]; exact hkd
+          · exact (hoth j hj hjk).1
+        exact ⟨by rw [hsame]; exact hx, hsa⟩
+      · exact dflt
   · exact dflt
 
 theorem mk_reshape (L : Laws I WT) (ann : Ann) (args : Term) :
